@@ -4,6 +4,21 @@
 int main(int argc, char** argv) {
   vh::Args a = vh::parse_args(argc, argv);
   vh::Ctx c(a);
+  {  // self-check of the reference: fast component extraction == definition by traces
+    vh::Rng r(5, 5, 5);
+    for (int d = 2; d <= 6; d++) {
+      ref::Mat u = alg::random_unitary(r, d), m(d);
+      std::vector<ref::real> w(d); for (auto& x : w) x = r.normal();
+      m = u * alg::diag_mat(w) * ref::dag(u);
+      auto a = ref::to_components_by_trace(m), b = ref::to_components_l(m);
+      for (size_t i = 0; i < a.size(); i++) if (std::fabs((double)(a[i] - b[i])) > 1e-17) { fprintf(stderr, "reference self-check failed d=%d k=%zu\n", d, i); return 2; }
+      ref::Mat back = ref::from_components(d, b);
+      if ((double)ref::maxabs(back - m) > 1e-17) { fprintf(stderr, "reference basis self-check failed d=%d\n", d); return 2; }
+      std::vector<ref::real> ev; ref::Mat V; ref::jacobi_herm(m, ev, V);
+      ref::Mat rec = V * alg::diag_mat(ev) * ref::dag(V);
+      if ((double)ref::maxabs(rec - m) > 1e-16) { fprintf(stderr, "reference jacobi self-check failed d=%d\n", d); return 2; }
+    }
+  }
   // GSL's default handler aborts; an abort inside an in-domain call is a violation, so keep it.
   if (a.prop == "C01") run_C01(c);
   else if (a.prop == "C02") run_C02(c);
